@@ -30,11 +30,11 @@ theorem insert_error_no_effect (c : Codec) (e e' : Engine) (rel : String) (ts : 
 
 /-- **delete refines set difference and reports exactly the removed tuples** (`n = |set ts ∩ R|`). -/
 theorem delete_refines (c : Codec) (e e' : Engine) (rel : String) (ts : List Tuple) (n : Nat)
-    (h : deleteCore c e rel ts = (e', .ok n)) (hn : (liveOf e rel).Nodup) :
+    (h : deleteCore c e rel ts = (e', .ok n)) (hn : (liveOf e rel).Nodup) (ha : ArityOk e) :
     (liveOf e' rel).Nodup ∧ (∀ t, t ∈ liveOf e' rel ↔ t ∈ liveOf e rel ∧ t ∉ ts) ∧
     (liveOf e rel).length = (liveOf e' rel).length + n ∧
     (∀ r, r ≠ rel → liveOf e' r = liveOf e r) := by
-  obtain ⟨h1, h2, h3⟩ := deleteCore_ok c e e' rel ts n h
+  obtain ⟨h1, h2, h3⟩ := deleteCore_ok c e e' rel ts n ha h
   obtain ⟨s1, s2, s3⟩ := deleteLive_spec (liveOf e rel) ts hn
   rw [h1] at h2 ⊢
   exact ⟨s1, s2, by omega, h3⟩
@@ -55,6 +55,65 @@ theorem store_nodup (c : Codec) (ans : Answer) (cfg : Cfg) (h : List WOp) (r : S
     | cons o os ih => intro e he; exact ih _ (exec_nodup c ans e o he)
   exact this h _ (fun r => by simp [liveOf, aget]) r
 
+/-- **every stored tuple has its relation's arity**, after any statement sequence (any codec, answers,
+    outcomes) — the side condition of the refinement theorems below, and the reason why skipping
+    wrong-arity tuples in `delete_tuples_from` is invisible. -/
+theorem store_arity (c : Codec) (ans : Answer) (cfg : Cfg) (h : List WOp) : ArityOk (runW c ans cfg h) := by
+  have step : ∀ (e : Engine) (o : WOp), ArityOk e → ArityOk (exec c ans e o).1 := by
+    intro e o he
+    cases o with
+    | ins rel ts =>
+      simp only [exec]
+      have := insertCore_arityOk c e rel (ts.filter (fun t => !t.isEmpty)) he
+      rcases hr : insertCore c e rel (ts.filter (fun t => !t.isEmpty)) with ⟨e', res⟩
+      rw [hr] at this
+      cases res <;> exact this
+    | del rel t =>
+      simp only [exec]
+      split
+      · exact he
+      · have := deleteCore_arityOk c e rel [t] he
+        rcases hr : deleteCore c e rel [t] with ⟨e', res⟩
+        rw [hr] at this
+        cases res <;> exact this
+    | delb rel ts =>
+      simp only [exec]
+      have := deleteSeq_arityOk c rel ts e 0 he
+      rcases hr : deleteSeq c e rel ts 0 with ⟨e', res⟩
+      rw [hr] at this
+      cases res <;> exact this
+    | delc rel head body =>
+      simp only [exec]
+      cases ha : ans (dbOf e) (addVars [] head) (Lit.pos rel head :: body) with
+      | none => exact he
+      | some rows =>
+        simp only
+        have := deleteSeq_arityOk c rel
+          ((rows.filterMap (fun row => instHead (rowBinding (addVars [] head) row) head)).filter (fun t => !t.isEmpty)) e 0 he
+        rcases hr : deleteSeq c e rel
+          ((rows.filterMap (fun row => instHead (rowBinding (addVars [] head) row) head)).filter (fun t => !t.isEmpty)) 0 with ⟨e', res⟩
+        rw [hr] at this
+        cases res <;> exact this
+    | upd dels inss body =>
+      simp only [exec]
+      cases ha : ans (dbOf e) (updVars dels inss) body with
+      | none => exact he
+      | some rows =>
+        simp only
+        have := updRows_arityOk c (updVars dels inss) dels inss rows e 0 0 he
+        rcases hr : updRows c (updVars dels inss) dels inss e rows 0 0 with ⟨e', res⟩
+        rw [hr] at this
+        cases res <;> exact this
+    | obs => exact he
+    | ord v b => exact he
+    | bad => exact he
+  have : ∀ (h : List WOp) (e : Engine), ArityOk e → ArityOk (h.foldl (fun e o => (exec c ans e o).1) e) := by
+    intro h
+    induction h with
+    | nil => intro e he; exact he
+    | cons o os ih => intro e he; exact ih _ (step e o he)
+  exact this h _ (fun r t ht => by simp [liveOf, aget] at ht)
+
 /-- the tuples a conditional delete asks the store to delete, computed from the query answer `rows`. -/
 def condDeleteTuples (head : List Tm) (rows : List Tuple) : List Tuple :=
   (rows.filterMap (fun row => instHead (rowBinding (addVars [] head) row) head)).filter (fun t => !t.isEmpty)
@@ -64,7 +123,7 @@ def condDeleteTuples (head : List Tm) (rows : List Tuple) : List Tuple :=
 theorem cond_delete_exact (c : Codec) (ans : Answer) (e e' : Engine) (rel : String) (head : List Tm) (body : List Lit)
     (rows : List Tuple) (n : Nat)
     (ha : ans (dbOf e) (addVars [] head) (.pos rel head :: body) = some rows)
-    (h : exec c ans e (.delc rel head body) = (e', .condDeleted n)) (hn : (liveOf e rel).Nodup) :
+    (h : exec c ans e (.delc rel head body) = (e', .condDeleted n)) (hn : (liveOf e rel).Nodup) (har : ArityOk e) :
     (∀ t, t ∈ liveOf e' rel ↔ t ∈ liveOf e rel ∧ t ∉ condDeleteTuples head rows) ∧
     (liveOf e rel).length = (liveOf e' rel).length + n ∧ (liveOf e' rel).Nodup ∧
     (∀ r, r ≠ rel → liveOf e' r = liveOf e r) := by
@@ -78,7 +137,7 @@ theorem cond_delete_exact (c : Codec) (ans : Answer) (e e' : Engine) (rel : Stri
     simp only [Prod.mk.injEq, Msg.condDeleted.injEq] at h
     obtain ⟨h1, h2⟩ := h
     subst h1; subst h2
-    obtain ⟨a1, a2, a3⟩ := deleteSeq_ok c rel _ e e1 0 m hr
+    obtain ⟨a1, a2, a3⟩ := deleteSeq_ok c rel _ e e1 0 m har hr
     obtain ⟨s1, s2, _⟩ := deleteLive_spec (liveOf e rel) (condDeleteTuples head rows) hn
     refine ⟨by rw [a1]; exact s2, by omega, by rw [a1]; exact s1, a3⟩
 
@@ -89,9 +148,9 @@ theorem cond_delete_exact_right_answer (c : Codec) (ans : Answer) (e e' : Engine
     (rows : List Tuple) (n : Nat) (φ : Tuple → Prop)
     (ha : ans (dbOf e) (addVars [] head) (.pos rel head :: body) = some rows)
     (hright : ∀ t, t ∈ condDeleteTuples head rows ↔ t ∈ liveOf e rel ∧ φ t)
-    (h : exec c ans e (.delc rel head body) = (e', .condDeleted n)) (hn : (liveOf e rel).Nodup) :
+    (h : exec c ans e (.delc rel head body) = (e', .condDeleted n)) (hn : (liveOf e rel).Nodup) (har : ArityOk e) :
     (∀ t, t ∈ liveOf e' rel ↔ t ∈ liveOf e rel ∧ ¬ φ t) := by
-  obtain ⟨a, _, _, _⟩ := cond_delete_exact c ans e e' rel head body rows n ha h hn
+  obtain ⟨a, _, _, _⟩ := cond_delete_exact c ans e e' rel head body rows n ha h hn har
   intro t
   rw [a t, hright t]
   constructor
@@ -202,7 +261,7 @@ theorem update_exact (c : Codec) (ans : Answer) (e e' : Engine) (dels inss : Lis
     (rows : List Tuple) (d i : Nat)
     (ha : ans (dbOf e) (updVars dels inss) body = some rows)
     (hno : NoLaterDelete (updVars dels inss) dels inss rows)
-    (h : exec c ans e (.upd dels inss body) = (e', .updated d i)) (r : String) (y : Tuple) :
+    (h : exec c ans e (.upd dels inss body) = (e', .updated d i)) (har : ArityOk e) (r : String) (y : Tuple) :
     (y ∈ liveOf e' r ↔ (y ∈ liveOf e r ∧ ¬ inD (updVars dels inss) dels inss rows r y) ∨
       inI (updVars dels inss) dels inss rows r y) := by
   simp only [exec, ha] at h
@@ -215,7 +274,7 @@ theorem update_exact (c : Codec) (ans : Answer) (e e' : Engine) (dels inss : Lis
     simp only [Prod.mk.injEq, Msg.updated.injEq] at h
     obtain ⟨h1, _, _⟩ := h
     subst h1
-    rw [updRows_ok c _ dels inss rows e e1 0 0 d1 i1 hr r y]
+    rw [updRows_ok c _ dels inss rows e e1 0 0 d1 i1 har hr r y]
     exact memAfter_update _ dels inss r y rows hno _
 
 /-! ### full statement and refutation -/
